@@ -145,8 +145,12 @@ impl Monitor for C18 {
             // O(N^2)-per-update views at large N get the minimum length
             let l = if matches!(k, Kind::Net(_)) && n_eff > 64 { 8 * (n_eff + 12) } else { l };
             // thorough: every 7th single view gets the long run (16L = 4e6)
-            let cheap = n_eff <= 16 && !matches!(k, Kind::Net(_));
-            let l = if cfg.tier == Tier::Thorough && idx % 7 == 0 && cheap { 250_000 } else { l };
+            let cheap = (n_eff <= 16 && !matches!(k, Kind::Net(_))) || n_eff <= 4;
+            // long runs (16L = 4e6): every 7th single view in thorough; in the quick tier the
+            // smallest windows of every kind (a leak of a few bytes per thousand updates shows only
+            // when a buffer doubles, after a million updates or more)
+            let long = (cfg.tier == Tier::Thorough && idx % 7 == 0 && cheap) || (cfg.tier == Tier::Quick && n_eff <= 2 && idx % 3 == 0);
+            let l = if long { 250_000 } else { l };
             measure(&Spec::leaf(k), l, rng.next(), out, &format!("view/{}", k.name()));
         } else if idx < a + b {
             let j = idx - a;
